@@ -9,12 +9,15 @@
 (* whole table; every row is one run of the real ws.WebsocketConnection.    *)
 (***************************************************************************)
 EXTENDS Naturals, TLC, Json
-CONSTANTS MaxWriters, MaxK, Delays
+CONSTANTS MaxWriters, MaxK, Delays,
+          Long        \* TRUE: the two scenarios that take more than a minute of real time (keep-alive) are in the table
 \* peerBad (C08): a frame a SHIP peer must never send - k = 1 text frame, 2 one-byte binary, 3 empty binary (all refused: the
 \* connection is closed and the loss reported), 4 a 1 MB binary frame, 5 a ping with payload (both tolerated)
 \* localCloseLateRead (C13): the peer's frame has been taken off the socket, but the transport read that carries it returns to the
 \* read pump only after the local CloseDataConnection (k = 0 without, k = 1 with a reason) has returned: it must not be delivered
-Events == {"none", "localClose", "localCloseReason", "localCloseLateRead", "peerClose", "peerEof", "peerBad", "writeFail", "readFail"}
+\* peerSilent (C13): the peer stops answering (no pong, no FIN): the read deadline (pong wait, 60 s) is the only thing that
+\* notices; idleLong: the control - a peer that answers pings keeps an idle connection alive beyond the pong wait
+Events == {"none", "localClose", "localCloseReason", "localCloseLateRead", "peerClose", "peerEof", "peerBad", "writeFail", "readFail", "peerSilent", "idleLong"}
 Places == {"start", "idle", "mid", "blockedFull"}
 Rows == { [writers |-> w, msgs |-> m, inbound |-> i, event |-> e, place |-> p, k |-> k, delay |-> d] :
             w \in 1..MaxWriters, m \in 1..2, i \in {0, 2}, e \in Events, p \in Places, k \in 0..MaxK, d \in Delays }
@@ -22,8 +25,9 @@ Rows == { [writers |-> w, msgs |-> m, inbound |-> i, event |-> e, place |-> p, k
 \* (1000, 1001, 1002, 1008, 1011, 3000, 4001, 4452, 4999, ...)
 \* localCloseReason, k = 1: the transport write of the close frame returns only after the peer has reacted to it
 Valid(r) == /\ (r.event \in {"writeFail", "readFail", "peerClose", "peerBad"}) => (r.k > 0)
-            /\ (r.event \in {"none", "localClose", "peerEof"}) => (r.k = 0)
+            /\ (r.event \in {"none", "localClose", "peerEof", "peerSilent", "idleLong"}) => (r.k = 0)
             /\ r.event = "localCloseReason" => r.k <= 1
+            /\ r.event \in {"peerSilent", "idleLong"} => (Long /\ r.k = 0 /\ r.inbound = 0 /\ r.place = "idle" /\ r.writers = 1 /\ r.msgs = 1)
             /\ r.event = "localCloseLateRead" => (r.k <= 1 /\ r.inbound = 0 /\ r.place = "idle")
             /\ r.event = "peerBad" => (r.k <= 5 /\ r.inbound = 0 /\ r.msgs = 2 /\ r.place \in {"idle", "mid"})
             /\ (r.place = "mid") <=> (r.delay > 0)
